@@ -10,6 +10,7 @@ package main
 import (
 	"fmt"
 	"go/token"
+	"go/types"
 	"sort"
 	"strings"
 
@@ -41,6 +42,51 @@ type roleCtx struct {
 	lookup *ssa.Function
 	two    *ssa.Function
 	seen   map[string]bool
+	at     *ssa.BasicBlock // where the slot is read: stores made under the opposite outcome of the same test do not count
+}
+
+// contradictory: block a lies on one side of a test of some boolean value and
+// block b on the other side of a test of the same value.
+func contradictory(a, b *ssa.BasicBlock) bool {
+	if a == nil || b == nil || a.Parent() != b.Parent() {
+		return false
+	}
+	type side struct {
+		cond ssa.Value
+		pol  bool
+	}
+	sides := func(blk *ssa.BasicBlock) []side {
+		var out []side
+		for _, x := range blk.Parent().Blocks {
+			ifi, ok := x.Instrs[len(x.Instrs)-1].(*ssa.If)
+			if !ok {
+				continue
+			}
+			cond, neg := ifi.Cond, false
+			for {
+				u, isU := cond.(*ssa.UnOp)
+				if !isU || u.Op != token.NOT {
+					break
+				}
+				cond, neg = u.X, !neg
+			}
+			for i, sx := range x.Succs {
+				if len(sx.Preds) == 1 && (sx == blk || sx.Dominates(blk)) {
+					out = append(out, side{cond, (i == 0) != neg})
+				}
+			}
+		}
+		return out
+	}
+	sa, sb := sides(a), sides(b)
+	for _, x := range sa {
+		for _, y := range sb {
+			if x.cond == y.cond && x.pol != y.pol {
+				return true
+			}
+		}
+	}
+	return false
 }
 
 func (rc *roleCtx) key(kind string, v ssa.Value, k int64, sub Subst) string {
@@ -51,6 +97,27 @@ func (rc *roleCtx) key(kind string, v ssa.Value, k int64, sub Subst) string {
 func (rc *roleCtx) roleOf(v ssa.Value, sub Subst, d int) int {
 	if v == nil || d > 40 {
 		return 0
+	}
+	// where this very load happens (value canonicalisation may replace it by an equal load elsewhere)
+	var loadBlk *ssa.BasicBlock
+	{
+		o := v
+		for i := 0; i < 4; i++ {
+			switch x := o.(type) {
+			case *ssa.Convert:
+				o = x.X
+				continue
+			case *ssa.ChangeType:
+				o = x.X
+				continue
+			}
+			break
+		}
+		if u, ok := o.(*ssa.UnOp); ok && u.Op == token.MUL {
+			if _, isIA := u.X.(*ssa.IndexAddr); isIA {
+				loadBlk = u.Block()
+			}
+		}
 	}
 	v = sub.resolve(stripConv(v))
 	k := rc.key("v", v, 0, sub)
@@ -105,8 +172,28 @@ func (rc *roleCtx) roleOf(v ssa.Value, sub Subst, d int) int {
 			}
 			return rc.roleOf(base, sub, d+1) // a field of an inode: the inode's role
 		case *ssa.IndexAddr:
-			if kk, ok := constInt(a.Index); ok {
-				return rc.roleOfSlot(a.X, kk, sub, d+1)
+			kk, ok := constInt(a.Index)
+			if !ok {
+				// s[len(s)-c]: counted from the end (passed on as -c)
+				if sub2, isB := stripConv(a.Index).(*ssa.BinOp); isB && sub2.Op == token.SUB {
+					if c, isk := constInt(sub2.Y); isk && c > 0 {
+						if lc, isC := stripConv(sub2.X).(*ssa.Call); isC {
+							if bi, isBi := lc.Call.Value.(*ssa.Builtin); isBi && bi.Name() == "len" && len(lc.Call.Args) == 1 && stripConv(lc.Call.Args[0]) == stripConv(a.X) {
+								kk, ok = -c, true
+							}
+						}
+					}
+				}
+			}
+			if ok {
+				old := rc.at
+				rc.at = x.Block()
+				if loadBlk != nil {
+					rc.at = loadBlk
+				}
+				r := rc.roleOfSlot(a.X, kk, sub, d+1)
+				rc.at = old
+				return r
 			}
 		case *ssa.Alloc:
 			return rc.roleOfCell(a, sub, d+1)
@@ -288,16 +375,36 @@ func (rc *roleCtx) roleOfElem(n ssa.Value, k int64, sub Subst, d int) int {
 	}
 	m := 0
 	for _, root := range roots {
+		want := k
+		if k < 0 {
+			// from the end: the length of a slice built in place is known
+			n := int64(-1)
+			switch r := root.(type) {
+			case *ssa.MakeSlice:
+				n, _ = constInt(r.Len)
+			case *ssa.Alloc:
+				if at, ok := derefType(r.Type()).Underlying().(*types.Array); ok {
+					n = at.Len()
+				}
+			}
+			if n <= 0 {
+				continue
+			}
+			want = n + k
+		}
 		for _, r := range refs(root) {
 			ia, ok := r.(*ssa.IndexAddr)
 			if !ok {
 				continue
 			}
-			if kk, isk := constInt(ia.Index); !isk || kk != k {
+			if kk, isk := constInt(ia.Index); !isk || kk != want {
 				continue
 			}
 			for _, r2 := range refs(ia) {
 				if st, ok := r2.(*ssa.Store); ok && st.Addr == ssa.Value(ia) {
+					if rc.at != nil && contradictory(st.Block(), rc.at) {
+						continue // this layout is filled in under the opposite outcome of the test the reader is under
+					}
 					m |= rc.roleOf(st.Val, sub, d+1)
 				}
 			}
